@@ -59,6 +59,8 @@ def load_configs(draw, small, allow_python=True):
         cfg['first-edge'] = draw(st.sampled_from([0, 1, 1000, 3000]))
     if allow_python and (fast or small) and draw(st.integers(0, 5)) == 0:
         cfg['python'] = 1
+    if draw(st.sampled_from([0, 0, 0, 1])):
+        cfg['finish-tape'] = 1      # a bin2tap tape ends with the block that holds START: the outcome is the same
     return cfg
 
 
